@@ -295,9 +295,9 @@ theorem txn_blocking_sent_once (outs : List (Option SErr)) : (sendFunc ⟨true, 
 
 open GunYu.ClusterSender in
 /-- NOT true for transactional + PIPELINED mode and a non-redirect error returned
-    by Dispatch itself: `sendFunc` dispatches the batch again (listed under
-    `partial`: Dispatch only fails before anything of a one-node batch was
-    submitted, argued from batch2.Dispatch, not proved) -/
+    by Dispatch itself: `sendFunc` dispatches the batch again. That no command reaches a
+    node twice all the same is Props/C19Exec.lean `one_node_batch_submitted_once`
+    (with `txn_batch_one_node`): a failed Dispatch of a one-node batch has submitted nothing -/
 example : sendFunc ⟨true, true⟩ [some .other, none] 0 = (2, .ok) := by decide
 
 open GunYu.ClusterSender in
@@ -356,7 +356,9 @@ theorem acked_batch_executed_in_order (slotOf : Key → Slot) (sv : Srv) (slots 
     Model/ClusterSegments.lean. An execution = any list of segments (each: the stored position
     is read from the target, batches are sent from there, each batch is acknowledged completely
     or cut at any point, the segment ends cleanly / on a receiver error / by a close / by a
-    hand-over). What the theorems ASSUME of every event (the guards of `step`, i.e. the
+    hand-over). (Props/C19Exec.lean DERIVES the guards and both named assumptions below from an
+    operational model of the batch attempt and restates (1)-(2) for its runs with the cluster
+    hypothesis only.) What the theorems HERE assume of every event (the guards of `step`, i.e. the
     hypothesis `run … = some s`) is the content of the per-segment theorems above — `AppOK`:
     within its range, nothing twice (`per_key_order_partial`); `Complete`: an acknowledged batch
     executed everything, per group in order (`acked_batch_executed_in_order`,
